@@ -9,6 +9,15 @@ CLAIMED = {
  "C05": ("lean+lockstep", "Lean 4 theorems over a model of key-space/murmur/key encoders; regenerated constants and one-liners (gofacts); lockstep differential correspondence",
    "Proved for all key-group counts 1..65535, operator counts and keys: ranges partition [0,kgc) contiguously with sizes differing by at most one; the router's table lookup returns the unique range containing the key's group; state and timer keys are owned by exactly that range; murmur model reproduces the reference vectors (kernel decide). The model is tied to the code by regenerated constants/functions and by lockstep comparison of ranges, hashes, groups, routing (real operatorCluster), encoders and OwnsKey.",
    "Lean kernel; gofacts translator; harness. uint16 narrowing in NewKeySpace proved harmless; Go int overflow not modelled (values <= 70000).", "8/C05"),
+ "C20": ("lean+tracevalidation", "Lean 4 all-schedule theorems for the batcher and the ReorderFetcher/ReorderBuffer transition system + lockstep on EventBatcher and hook-based trace validation of the real ReorderFetcher",
+   "All-schedule theorems for the batcher (concatenation of handed-out batches + current = items added; stale token flushes nothing; timer token is the current batch's) and for the ReorderFetcher/ReorderBuffer transition system at mutex-section granularity (in-order output, prefix, completeness at rest, capacity, mutual exclusion of the two flushers), tied by lockstep on EventBatcher with the real FakeTimer and hook-based trace validation of the real ReorderFetcher under a cooperative scheduler.",
+   "Model is the code after the D17 repair; the unrepaired model's reordering witness is kept as a theorem and a regression trace. Output back-pressure and interleavings inside Add/IsFull are modelled but not schedulable without more hooks; SystemTimer real time not covered.", "8/C20"),
+ "C04": ("lean+tracevalidation", "Lean 4 every-schedule theorem (each operator's stream = projection of the read order) + end-to-end stream comparison on the real SourceRunner under adversarial scheduling",
+   "Every-schedule theorem that each operator's stream is the projection of the read order (exactly-once, per-split key order, broadcasts never overtake) for the runner's delivery path (read loop, reorder fetcher spec, join, routing, per-operator batcher and sender), tied by end-to-end stream comparison on the real SourceRunner with a scripted reader, gated KeyEventBatch, recording operators with back-pressure, fireable batch timers and flushers parked at hooks.",
+   "The reorder fetcher is represented by its C20-proved spec; ticker watermarks (real 200 ms ticker) and the operator-side handler are not compared; stirring is timing-assisted (yield/await), verdicts on the correct tree do not depend on timing.", "8/C04"),
+ "C07": ("lean+tracevalidation", "Lean 4 refinement proof (LSM transition system refines a last-write-wins map, for Get, two-phase Get and ScanPrefix) + hook-scheduled trace validation of the real dkv.DB",
+   "Proved for every history of puts, deletes, memtable rotations, flush begins/commits, compaction commits and reads: Get (also a Get whose memtable and sstable phases are separated by arbitrary background commits) returns the last written entry, and ScanPrefix returns exactly the live latest entries with the prefix in strictly ascending key order. The invariant (sorted runs, newer-above sequence numbers, read-order view = spec, range-unique deeper levels) is proved preserved by every step; the compaction step is the obligation CompactionSound discharged in C18 (the _noCompact theorems are unconditional). Tied to the real dkv.DB by trace validation: generated schedules with tiny memtables where flush/compaction tasks and readers are parked and released at hook points, every read compared with the model and with the map spec.",
+   "Memtable (zip tree), table file, k-way merge and level binary search are abstracted by their specs proved in C19/C17; rotation timing and compaction picking are free actions (every size setting covered); Go memory model below the mutex sections trusted. Model describes the code after repairs D1-D5.", "8/C07"),
  "C19": ("lean+lockstep", "Lean 4 theorems (refinement of sorted-list specifications) + regenerated compare/pick functions + lockstep on the real structures",
    "Proved for all operation sequences, keys, priorities and (zip tree) all rank outcomes: SearchUnique finds exactly the matching element on strictly ascending input incl. the table-range level lookup; heap push/pop/fix keep order and contents and pop a minimum; MergeSorted is a sorted permutation and Merge/kv.MergeEntries yields one newest entry per key; the zip tree, SortedCache (byte accounting), Set, SortedMap and the partitioned queue (Peek = global minimum) refine sorted-list specifications. Tied to the code by regenerated compare/pick functions and lockstep comparison of every exported method on the real structures, plus theorem instances evaluated on the implementation.",
    "Lean kernel; gofacts; harness. google/btree and slices.BinarySearch trusted; Partition.Index() abstracted to heap position (checked by lockstep); uint64 counters as Nat; iterator early-termination not modelled.", "8/C19"),
